@@ -598,6 +598,35 @@ Proof.
   apply IH; [rewrite kind_q_add_variable; exact K|exact Hw].
 Qed.
 
+Lemma wf_q_add_linear_dflt v b vt lb ub s : st_kind s = None -> wf s -> wf (fst (q_add_linear_dflt v b vt lb ub s)).
+Proof.
+  intros K Hs. unfold q_add_linear_dflt. destruct (has_var s v); [apply pres_d_add_linear; exact Hs|].
+  apply wf_bind; [apply wf_q_add_variable; assumption|apply pres_d_add_linear].
+Qed.
+
+Lemma kind_d_add_linear v b s : st_kind (fst (d_add_linear v b s)) = st_kind s.
+Proof.
+  unfold d_add_linear, resolve, bind. destruct (st_kind s) eqn:K; cbn [ok snd fst].
+  - cbn [with_poly st_kind]. rewrite kind_ensure. exact K.
+  - destruct (has_var s v); cbn [ok raise snd fst with_poly st_kind]; exact K.
+Qed.
+
+Lemma kind_q_add_linear_dflt v b vt lb ub s : st_kind (fst (q_add_linear_dflt v b vt lb ub s)) = st_kind s.
+Proof.
+  unfold q_add_linear_dflt. destruct (has_var s v); [apply kind_d_add_linear|].
+  unfold bind. destruct (snd (q_add_variable vt v lb ub s)); [|apply kind_q_add_variable].
+  rewrite kind_d_add_linear. apply kind_q_add_variable.
+Qed.
+
+Lemma wf_seqm_q_add_linear_dflt vt lb ub l s :
+  st_kind s = None -> wf s -> wf (fst (seqm (fun t => q_add_linear_dflt (fst t) (snd t) vt lb ub) l s)).
+Proof.
+  revert s. induction l as [|t l IH]; intros s K Hs; [exact Hs|].
+  cbn [seqm]. unfold bind. pose proof (wf_q_add_linear_dflt (fst t) (snd t) vt lb ub s K Hs) as Hw.
+  destruct (snd (q_add_linear_dflt (fst t) (snd t) vt lb ub s)); [|exact Hw].
+  apply IH; [rewrite kind_q_add_linear_dflt; exact K|exact Hw].
+Qed.
+
 (* the only operand that is itself a model: update(other) *)
 Definition op_wf (o : op) : Prop := match o with OUpdate other => wf other | _ => True end.
 
@@ -616,8 +645,8 @@ Proof.
     + destruct (is_bqm s); [apply pres_m_resize|]; exact Hs.
     + destruct (is_bqm s) eqn:B; [apply wf_m_change_vartype_bqm; assumption|exact Hs].
     + destruct (is_bqm s) eqn:B; [exact Hs|]. apply wf_q_add_variable; [apply is_bqm_false; exact B|exact Hs].
-    + destruct (is_bqm s) eqn:B; [exact Hs|]. destruct (has_var s v); [apply pres_d_add_linear; exact Hs|].
-      apply wf_bind; [apply wf_q_add_variable; [apply is_bqm_false; exact B|exact Hs]|apply pres_d_add_linear].
+    + destruct (is_bqm s) eqn:B; [exact Hs|]. apply wf_q_add_linear_dflt; [apply is_bqm_false; exact B|exact Hs].
+    + destruct (is_bqm s) eqn:B; [exact Hs|]. apply wf_seqm_q_add_linear_dflt; [apply is_bqm_false; exact B|exact Hs].
     + destruct (is_bqm s) eqn:B; [exact Hs|]. apply wf_seqm_q_add_variable; [apply is_bqm_false; exact B|exact Hs].
     + destruct (is_bqm s); [exact Hs|apply pres_q_set_lb; exact Hs].
     + destruct (is_bqm s); [exact Hs|apply pres_q_set_ub; exact Hs].
